@@ -161,7 +161,10 @@ CHECKS = {
         technique="Coq proof + regenerated command-table obligations + snapshot-equality enumeration"),
     "C17": dict(category="proof", design_ref="DESIGN.md section 4/C17",
         text="Theorems about the executable model of the three ref namespaces and the config sections keyed by "
-             "branch name (Model/Branch.v: deinitialize, ensure_patch_refs, clone, rename, delete, cleanup, protect): "
+             "branch name (Model/Branch.v: deinitialize, ensure_patch_refs, create, switch, describe, clone, rename, "
+             "delete, cleanup, protect, unprotect): create gives the new branch the parent's head, an EMPTY stack "
+             "(replacing whatever refs plain git left under that name), its own two config sections and nothing "
+             "else; switch changes only HEAD, describe only the named description; "
              "deinitialize removes exactly the named branch's stack refs and stgit config; clone/rename give the new "
              "name the SAME state commit (all three lists, every patch commit, the log) and exactly its patch refs and "
              "leave nothing under the old name; refused sub-commands change nothing; unrelated branches (shared "
@@ -187,7 +190,8 @@ CHECKS = {
              "are proved refuted with witnesses and replayed on the implementation (known findings F13, F14, F35).",
         note="Partial: git diff-tree --binary / git apply (the diff itself, tree equality), gzip/bzip2/tar decoding and "
              "the mbox form (git mailsplit/mailinfo) are outside the model and judged by the end-to-end direct oracle "
-             "only. Trusted: Coq kernel; hook 3 (stg verif-eval splitpatch/parsemsg/nameemail/specialize); extraction "
+             "only (round trips through series / files / gz / bz2 / tar forms, and a second export into the same, "
+             "since polluted, directory that must reproduce the first byte for byte). Trusted: Coq kernel; hook 3 (stg verif-eval splitpatch/parsemsg/nameemail/specialize); extraction "
              "of Model/Export.v (ExtrOcamlBasic) and ocaml/edriver.ml.",
         technique="Coq proof (round-trip theorem + refuted witnesses) + extracted-model function-level differential "
                   "testing + byte-for-byte comparison of real exported files and imported patches with the model + "
@@ -205,7 +209,9 @@ CHECKS = {
              "world (all commands except stg repair = known finding F6 and a pop shape the command line cannot "
              "produce); every potential panic site of the modelled modules is in the reviewed list (regenerated). "
              "Commands outside the model are searched by a command-line fuzzer over all sub-commands, options, "
-             "boundary arguments and repository states (not a proof)."),
+             "boundary arguments and repository states, 71 hand-written boundary probes and 155 generated ones "
+             "(every patch-taking command x the hidden patch alone / beside applied and unapplied patches / as a "
+             "range end) on a fixed stack shape (not a proof)."),
 }
 
 NA_REASON = "check under construction in this build phase (see DESIGN.md section 8); no claim made yet"
